@@ -13,7 +13,8 @@ char rfbEndianTest = (1 == 0);       /* same definition as main.c:52-56 */
 char rfbEndianTest = (1 == 1);
 #endif
 void rfbLogPerror(const char *s) { (void)s; }
-void rfbCloseClient(rfbClientPtr cl) { (void)cl; }
+static int closed_flag = 0;
+void rfbCloseClient(rfbClientPtr cl) { (void)cl; closed_flag = 1; }
 int rfbWriteExact(rfbClientPtr cl, const char *b, int n) { (void)cl; (void)b; return n; }
 rfbBool rfbSendSetColourMapEntries(rfbClientPtr cl, int a, int b) { (void)cl; (void)a; (void)b; return TRUE; }
 rfbClientIteratorPtr rfbGetClientIterator(rfbScreenInfoPtr s) { (void)s; return NULL; }
@@ -52,5 +53,23 @@ int main(void) {
   printf("def allow24bpp : Bool := false\n");
   LNAT("countOffsets", COUNT_OFFSETS);
 #endif
+  /* behavioural probe: does rfbSetTranslateFunction refuse a true-colour client format whose
+     channel does not fit into the pixel (red max 255 at shift 31 of 32 bits)?  The tree as received
+     accepts it (defined behaviour on the RGB-table path); a validation may be added later
+     (fixes/C04-pixfmt-validate.diff).  The model follows whichever the tree does. */
+  {
+    static rfbScreenInfo scr; static rfbClientRec cl;
+    rfbPixelFormat f = { 32, 24, 0, 1, 255, 255, 255, 16, 8, 0, 0, 0 };
+    rfbBool ok;
+    memset(&scr, 0, sizeof scr); memset(&cl, 0, sizeof cl);
+    scr.serverFormat = f;
+    cl.screen = &scr; cl.host = (char *)"probe"; cl.sock = -1;
+    cl.format = f; cl.format.redShift = 31; cl.format.greenShift = 0; cl.format.blueShift = 8;
+    closed_flag = 0;
+    ok = rfbSetTranslateFunction(&cl);
+    printf("/-- rfbSetTranslateFunction refuses true-colour client channels that do not fit the pixel -/\n");
+    printf("def validatesChannelFit : Bool := %s\n", (!ok && closed_flag) ? "true" : "false");
+    if (ok && closed_flag) { fprintf(stderr, "inconsistent probe result\n"); return 1; }
+  }
   return 0;
 }
